@@ -37,6 +37,24 @@ arr_real _multirate_fir(int interp, int decim, int hlen, real_t beta) {
     return num;
 }
 
+//copy of the converter wrapped by FIRResampler
+std::shared_ptr<IResampler> _clone_resampler(FIRResampler::Mode mode, const std::shared_ptr<IResampler>& p) {
+    if (!p) {
+        return nullptr;
+    }
+    switch (mode) {
+    case FIRResampler::Mode::Decimator:
+        return std::make_shared<FIRDecimator>(static_cast<const FIRDecimator&>(*p));
+    case FIRResampler::Mode::Interpolator:
+        return std::make_shared<FIRInterpolator>(static_cast<const FIRInterpolator&>(*p));
+    case FIRResampler::Mode::Resampler:
+        return std::make_shared<FIRRateConverter>(static_cast<const FIRRateConverter&>(*p));
+    case FIRResampler::Mode::Bypass:
+    default:
+        return std::make_shared<BypassResampler>();
+    }
+}
+
 }   // namespace
 
 //------------------------------------------------------------------------------
@@ -126,6 +144,20 @@ FIRResampler::FIRResampler(int out_fs, int in_fs, const arr_real& h) {
         rsmp_ = std::make_shared<FIRRateConverter>(m, d, h);
         mode_ = Mode::Resampler;
     }
+}
+
+FIRResampler::FIRResampler(const FIRResampler& rhs)
+  : IResampler{rhs}
+  , mode_{rhs.mode_}
+  , rsmp_{_clone_resampler(rhs.mode_, rhs.rsmp_)} {
+}
+
+FIRResampler& FIRResampler::operator=(const FIRResampler& rhs) {
+    if (this != &rhs) {
+        mode_ = rhs.mode_;
+        rsmp_ = _clone_resampler(rhs.mode_, rhs.rsmp_);
+    }
+    return *this;
 }
 
 int FIRResampler::delay() const noexcept {
